@@ -445,7 +445,19 @@ def F_order(ctx, lib):
             calls, dd = flow.all_call_exprs(cb)
             vs = [e for bb, t, ci, e in calls if e[0] == "call" and flow.fname(e[1]) == "Bdd::variable"]
             ok = ok and len(vs) == 1 and match(vs[0], C("Bdd::variable", ANY, ADT("Var", _0=P(2)))) is not None
-        ctx.ob(rule, "Adf::from_parser.variables", ok, where=b.where(), expected="(0..parser.dict_size()).for_each(|v| bdd.variable(Var(v)))", found=[flow.show(r.receiver)[:100] for r in fe])
+        if not fe:
+            # the `for v in 0..parser.dict_size() { bdd.variable(Var(v)); }` spelling: the item of the range's `next` is the variable index
+            calls, dd = flow.all_call_exprs(b)
+            vs = [e for bb, t, ci, e in calls if e[0] == "call" and flow.fname(e[1]) == "Bdd::variable"]
+            ok = False
+            if len(vs) == 1 and len(vs[0][3]) == 2 and vs[0][3][1][0] == "adt" and vs[0][3][1][1].endswith("Var"):
+                idx = dict(vs[0][3][1][3]).get("0")
+                nx = flow.find(idx, lambda n_: n_[0] == "call" and flow.last(n_[2]) == "next") if idx is not None else []
+                rngs = flow.find(idx, lambda n_: n_[0] == "adt" and n_[1].endswith("ops::Range")) if idx is not None else []
+                if idx is not None and idx[0] == "field" and idx[2] == "0" and len(nx) >= 1 and len(rngs) == 1:
+                    rng = dict(rngs[0][3])
+                    ok = flow.const_val(rng["start"]) == 0 and match(rng["end"], C("AdfParser::dict_size", P(1))) is not None
+        ctx.ob(rule, "Adf::from_parser.variables", ok, where=b.where(), expected="(0..parser.dict_size()).for_each(|v| bdd.variable(Var(v))) or the same as a for loop", found=[flow.show(r.receiver)[:100] for r in fe])
     except LookupError as e:
         ctx.lost(rule, "Adf::from_parser", str(e))
     # parser side
@@ -502,3 +514,12 @@ def check(ctx):
         A_name(ctx, lib)
         C01.A_hybrid(ctx, lib)
         deps.kernel_build(ctx, lib)      # includes C07.T-conn
+        # 'imported after biodivine pre-grounding: that function with the grounded truth values substituted' - the biodivine fixpoint loop that hybrid_step() runs
+        # before the bridge: what it substitutes (S.F-full var_list), that it runs to the fixpoint (C01.P-progress) and that the list of a round is not altered (C01.F-io);
+        # the native loop is not on this path
+        from rules import semantics
+        n0 = len(ctx.obligations)
+        semantics.bio_list_tables(ctx, lib, "S.F-full", which=("var_list",))
+        semantics.P_progress(ctx, lib, "C01.P-progress")
+        C01.F_io(ctx, lib)
+        ctx.obligations[n0:] = [o for o in ctx.obligations[n0:] if not str(o.key).startswith("native")]
